@@ -368,7 +368,12 @@ class Connection(object):
     def _dispatch(self, data):  # serving---dispatch?
         msg, seq, args = brine.load(data)
         if msg == consts.MSG_REQUEST:
-            self._dispatch_request(seq, args)
+            try:
+                self._dispatch_request(seq, args)
+            except EOFError:
+                # the response could not be written: the transport is gone, so is the connection
+                self.close()
+                raise
         elif msg == consts.MSG_REPLY:
             obj = self._unbox(args)
             self._seq_request_callback(msg, seq, False, obj)
